@@ -527,7 +527,7 @@ def ir_setup(ctx):
 
 
 def ir_requires(s):
-    return [("B>=1", lift(s.B) >= 1), ("A>=1", lift(s.A) >= 1), ("N>=2", lift(s.N) >= 2), ("N<=2^30", lift(s.N) <= 2 ** 30)]
+    return [("B>=1", lift(s.B) >= 1), ("A>=1", lift(s.A) >= 1), ("N>=2", lift(s.N) >= 2), ("N<=2^29", lift(s.N) <= 2 ** 29)]
 
 
 def ir_raises(s):
@@ -650,7 +650,7 @@ def ir_inv(s):
     M_ = lift(S(ctx.ghost["c07_gather"][0]["input"].shape[1]))
     hi = M_ - 1
     o1 = emit(ctx, lid + f"rotation-axis+-radius-lies-within-the-kept-filtered-samples[{par}]", AND(N / 2 + r <= hi, N / 2 - r >= 0, M_ <= N + 1),
-              base + [N <= 2 ** 30])
+              base + [N <= 2 ** 29])
     g_r0 = emit(ctx, lid + "radius>=0", r >= 0, base)
     Cc, Ss, Xg, Yg, Rg = R("cos!gen"), R("sin!gen"), I("X!gen"), I("Y!gen"), I("r!gen")
     l1 = emit(ctx, lid + "|x*cos-y*sin|<=radius-inside-the-circle", implies(sp.inside, AND(t <= z3.ToReal(r), -z3.ToReal(r) <= t)),
@@ -662,7 +662,7 @@ def ir_inv(s):
     # this iteration's contribution = accumulator after - accumulator before
     pj, cn = reals._real(s.recon.fn(b, y, x)) - recon_k, sp.contrib(kk)
     g_lin = emit(ctx, lid + f"contribution-is-linear-interpolation-of-the-filtered-projection(weights-in-[0,1],no-clamping)[{par}]",
-                 implies(sp.inside, pj == cn), facts + [N <= 2 ** 30], gen=[(u_code, U), (u_spec, U2)])
+                 implies(sp.inside, pj == cn), facts + [N <= 2 ** 29], gen=[(u_code, U), (u_spec, U2)])
     Pj, Cn = R("proj!gen"), R("contrib!gen")
     unfold = PS_IR(k, b, y, x) == PS_IR(kk, b, y, x) + cn           # definition of the partial sum
     emit(ctx, lid + f"recon=partial-sum-of-interpolated-projections[{par}]",
@@ -1102,8 +1102,10 @@ def fam_radon(tier="quick", seed=0):
     for N in range(3, 34):
         th = sorted(set([0.0, 180.0] + [GRID[(N * 5 + 3 * q) % 25] for q in range(5)]))
         yield dict(N=N, B=1 + N % 3, theta=th, kinds=[KINDS[(N + q) % 3] for q in range(3)], premask=bool(N % 2 == 0 or N % 5 == 0), seed=seed)
-    for N in (5, 8, 16, 17):
-        yield dict(N=N, B=1, theta=GRID, kind="random", seed=seed + 1)
+        th2 = sorted(set([90.0] + [GRID[(N * 7 + 4 * q + 1) % 25] for q in range(4)]))
+        yield dict(N=N, B=3, theta=th2, kinds=list(KINDS), premask=False, seed=seed + 5)
+    for N in range(3, 34):
+        yield dict(N=N, B=1, theta=GRID, kind=KINDS[N % 3], seed=seed + 1)          # every singleton angle of the 7.5-degree grid
     for N in (6, 11, 33):
         yield dict(N=N, B=2, theta=_sub(rng, 4), kinds=["smooth", "random"], two_d=False, seed=seed + 2)
     yield dict(N=7, B=1, theta=None, kind="random", seed=seed)          # default theta = arange(180)
@@ -1253,7 +1255,7 @@ C_RADON.rt = _replay_oracle(rt_radon, klass_radon, B_RADON)
 
 BOUNDED = [
     Bounded.from_rt("radon_torch == skimage.radon (circle)", rt_radon, fam_radon,
-                    "N=3..33 (odd and even), batch 1..3, 7 angles per size covering the 7.5-degree grid 0..180 + full grid for 4 sizes + random subsets + default theta; random/smooth/delta images non-zero on the rim; pre-masked and unmasked", klass=klass_radon),
+                    "N=3..33 (odd and even), batch 1..3, the full 7.5-degree grid 0..180 for every size + oblique subsets + random subsets + default theta; random/smooth/delta images non-zero on the rim; pre-masked and unmasked", klass=klass_radon),
     Bounded.from_rt("iradon_torch == skimage.iradon", rt_iradon, fam_iradon,
                     "N=3..33 and 45,47,63,65; six filters; 5 oblique angles; batch 1..3; default theta; circle=False for odd N; theta mismatch", klass=klass_iradon),
     Bounded.from_rt("get_fourier_filter_torch == skimage._get_fourier_filter", rt_filter, fam_filter,
